@@ -232,7 +232,7 @@ theorem fclaims_zero : FClaimE 0 ∧ FClaimB 0 ∧ FClaimC 0 ∧ FClaimA 0 ∧ F
     rw [Ref.evalCond]; trivial
   · intro args hargs fo lazyAt hfo i m s rs env hrel
     rw [Ref.evalArgs]; trivial
-  · intro m s₁ rs₁ env vid c vs D hrel hg hc hd hvs hlen
+  · intro m s₁ rs₁ env vid c vs D f₀ hrel hg hc hd hvs hlen
     rw [Ref.applyFn]; trivial
   · intro fnOk self isOr es hes isFn c gs r hc hfn m s rs env pre post hrel hgen hseg
     rw [Ref.evalAndOr]; trivial
